@@ -455,6 +455,8 @@ func (c *checkCtx) report(t0 time.Time, verbose bool) int {
 			}
 		}
 	}
+	bounded, bKnown, bRC := c.runBounded()
+	knownLines = append(knownLines, bKnown...)
 	sort.Strings(knownLines)
 	knownLines = uniq(knownLines)
 	for _, l := range knownLines {
@@ -462,6 +464,11 @@ func (c *checkCtx) report(t0 time.Time, verbose bool) int {
 	}
 	// violations
 	rc := 0
+	if bRC == 1 {
+		rc = 1
+	} else if bRC == 2 {
+		engineErr = true
+	}
 	if engineErr {
 		for _, ob := range failed {
 			if ob.Status == "engine-error" {
@@ -522,6 +529,7 @@ func (c *checkCtx) report(t0 time.Time, verbose bool) int {
 		"samples":                   samples,
 		"abstractions_and_warnings": warns,
 		"known_findings":            knownLines,
+		"bounded_standins":          bounded,
 		"timeout_s":                 c.timeoutS,
 	}
 	ev.Assumptions = tb
@@ -592,6 +600,24 @@ func cmdReplay(args []string) int {
 		return 2
 	}
 	fmt.Printf("obligation: %v\nstatus: %v\ninput: %v\n", rec["obligation"], rec["status"], rec["input"])
+	if bf, _ := rec["bounded_file"].(string); bf != "" {
+		scratch, _ := os.MkdirTemp("", "govc-replay-")
+		defer os.RemoveAll(scratch)
+		c := &checkCtx{scratch: scratch, repo: "/repo", tier: "thorough"}
+		pkg, _ := rec["bounded_pkg"].(string)
+		run, _ := rec["bounded_run"].(string)
+		out, _ := c.runHarness(boundedHarness{file: bf, pkg: pkg, run: run})
+		in, _ := rec["input"].(string)
+		for _, l := range strings.Split(out, "\n") {
+			if strings.HasPrefix(strings.TrimSpace(l), "BOUNDED-FAIL ") && strings.Contains(l, in) {
+				fmt.Println(l)
+				fmt.Println("REPRODUCED")
+				return 1
+			}
+		}
+		fmt.Println("not reproduced on the current tree")
+		return 0
+	}
 	src, _ := rec["replay_src"].(string)
 	dir, _ := rec["pkg_dir"].(string)
 	if src == "" || dir == "" {
